@@ -110,9 +110,13 @@ class PostgreSQLQueryBuilder(QueryBuilder):
                 )
             )
             # the target table itself is always available (a term may mix it with a joined table)
-            join_and_base_tables = (
-                set(self._from) | join_tables | {self._insert_table, self._update_table}
-            )
+            if self._insert_table:
+                # the FROM items and joins of INSERT .. SELECT feed the SELECT: RETURNING sees the written rows only
+                join_and_base_tables = {self._insert_table}
+            else:
+                join_and_base_tables = (
+                    set(self._from) | join_tables | {self._insert_table, self._update_table}
+                )
             table_not_base_or_join = bool(term.tables_ - join_and_base_tables)
             if not table_is_insert_or_update_table and table_not_base_or_join:
                 raise QueryException("You can't return from other tables")
